@@ -581,6 +581,10 @@ pub struct DevCfg {
     pub last_confirmed: Option<bool>,
     #[serde(default)]
     pub pending: Option<Vec<u8>>,
+    /// the application collects queued downlinks only when it starts every other uplink (instead of after
+    /// every call): a downlink then sits in the queue through the receive windows of the next uplink
+    #[serde(default)]
+    pub hold_downlinks: bool,
 }
 
 impl DevCfg {
@@ -600,6 +604,7 @@ impl DevCfg {
             owed_ack: None,
             last_confirmed: None,
             pending: None,
+            hold_downlinks: false,
         }
     }
     pub fn otaa(region: &str) -> DevCfg {
@@ -607,10 +612,11 @@ impl DevCfg {
     }
 }
 
-pub type Dev<const PW: u8, const GAIN: i8> = Device<NbRadio<PW, GAIN>, ScriptRng, 256, 4>;
+pub type Dev<const PW: u8, const GAIN: i8, const D: usize = 4> = Device<NbRadio<PW, GAIN>, ScriptRng, 256, D>;
 
-pub struct NbCore<const PW: u8, const GAIN: i8> {
-    pub dev: Dev<PW, GAIN>,
+/// `D` is the depth of the device's downlink queue (4 everywhere except where the queue itself matters).
+pub struct NbCore<const PW: u8, const GAIN: i8, const D: usize = 4> {
+    pub dev: Dev<PW, GAIN, D>,
     pub radio: Rc<RefCell<RadioInner>>,
     pub rng: ScriptRng,
     pub net: Net,
@@ -681,7 +687,7 @@ pub fn patched_session(fcnt_up: Option<u32>, fcnt_down: Option<Option<u32>>, adr
     serde_json::from_value(v).expect("patched session deserialises")
 }
 
-impl<const PW: u8, const GAIN: i8> NbCore<PW, GAIN> {
+impl<const PW: u8, const GAIN: i8, const D: usize> NbCore<PW, GAIN, D> {
     pub fn new(cfg: &DevCfg) -> Self {
         let radio = Rc::new(RefCell::new(RadioInner {
             log: vec![],
@@ -692,7 +698,7 @@ impl<const PW: u8, const GAIN: i8> NbCore<PW, GAIN> {
             duration_ms: cfg.duration_ms,
         }));
         let rng = ScriptRng::new(vec![]);
-        let mut dev: Dev<PW, GAIN> = Device::new(make_region(cfg), NbRadio { inner: radio.clone(), buf: vec![] }, rng.clone());
+        let mut dev: Dev<PW, GAIN, D> = Device::new(make_region(cfg), NbRadio { inner: radio.clone(), buf: vec![] }, rng.clone());
         let mut net = Net::unjoined();
         if !cfg.otaa {
             let r = dev.join(JoinMode::ABP { nwkskey: NwkSKey::from(NWKSKEY), appskey: AppSKey::from(APPSKEY), devaddr: DevAddr::from_value(DEVADDR) });
@@ -843,7 +849,13 @@ impl<const PW: u8, const GAIN: i8> NbCore<PW, GAIN> {
         let (resp, judge, bytes) = self.raw(inner, fault);
         let ops = self.radio.borrow().log[n0..].to_vec();
         let mut downlinks = vec![];
-        if self.dead.is_none() {
+        let collect = !self.cfg.hold_downlinks
+            || (matches!(inner, Ev::Send { .. })
+                && match before.state {
+                    lorawan_device::verif::VerifMacState::Joined(j) => j.fcnt_up % 2 == 0,
+                    _ => true,
+                });
+        if self.dead.is_none() && collect {
             while let Some(d) = self.dev.take_downlink() {
                 downlinks.push((d.fport, d.data.to_vec()));
             }
